@@ -353,6 +353,11 @@ def run(prop, replay_file=None):
     for i, (c, exp, out) in enumerate(zip(cfgs, exps, outs)):
         if exp is None:
             continue
+        if len(exp) > 9 and exp[9]:
+            # the top-N selection hinges on an exact tie between different price windows: floating point may break it
+            # either way, the model cannot say which - the run is not judged
+            rep.cov["skipped_float_tie"] = rep.cov.get("skipped_float_tie", 0) + 1
+            continue
         rep.cov["evaluations"] += 1
         if pred(features(c, exp)):
             nontriv += 1
